@@ -316,7 +316,8 @@ class Names:
                             for x in own_nodes(m.node)):
                 self.consume_unit = m
         self.consume = self.consume_unit.node.name if self.consume_unit is not None else None
-        missing = [k for k, v in vars(self).items() if v is None]
+        # (the hand-out may also be written out in the group's __anext__: then the rules read it there)
+        missing = [k for k, v in vars(self).items() if v is None and k not in ("consume", "consume_unit")]
         if missing:
             raise AnalysisError(f"groupby machinery: could not derive the attribute(s) {missing} (anchor moved)")
 
@@ -339,7 +340,7 @@ def _view(ctx, N, short: str):
     """what the method does, with the private helpers of the state class inlined — except the
     two primitives the rules talk about (pull-and-publish, hand-out)"""
     from asl.inline import private_class_policy
-    return ctx.inlined(ctx.unit(short), policy=private_class_policy, keep=(N.step, N.consume, "aclose"))
+    return ctx.inlined(ctx.unit(short), policy=private_class_policy, keep=tuple(k for k in (N.step, N.consume, "aclose") if k))
 
 
 def _marker_in(N, text: str) -> bool:
@@ -421,6 +422,11 @@ def r16_1_3_group(ctx, N) -> None:
         ctx.check(ok, "R16.1", u, t, "a stale group ends immediately with StopAsyncIteration", node=t)
     # R16.3: consume guarded by key equality
     consumes = [n for n in main if n.kind == "call" and isinstance(n.ast.func, ast.Attribute) and n.ast.func.attr == N.consume]  # type: ignore[union-attr]
+    if N.consume is None:
+        # the hand-out is written out here: the statement that puts the marker back into the value field
+        consumes = [n for n in main if n.kind == "store" and any(
+            isinstance(x, ast.Attribute) and x.attr == N.value and isinstance(x.ctx, ast.Store)
+            for t in n.info.get("targets", []) for x in ast.walk(t))]
     key_tests = [n for n in main if n.kind == "branch" and isinstance(n.ast, ast.Compare) and len(n.ast.ops) == 1
                  and isinstance(n.ast.ops[0], (ast.Eq, ast.NotEq)) and f".{N.group_key}" in norm(n.ast)
                  and f".{N.key}" in norm(n.ast)]
@@ -574,7 +580,7 @@ def _getattr_target(v, N) -> bool:
 
 
 def r16_3_state(ctx, N) -> None:
-    cv = N.consume_unit
+    cv = N.consume_unit if N.consume_unit is not None else ctx.unit("itertools._Grouper.__anext__")
     cfg = cfg_of(cv)
     resets = [n for n in cfg.nodes if n.kind == "store" and not n.tag and any(
         isinstance(x, ast.Attribute) and x.attr == N.value and isinstance(x.ctx, ast.Store)
@@ -588,7 +594,7 @@ def r16_3_state(ctx, N) -> None:
             from asl.flow import reaching
             defs = reaching(cfg).defs_at(rets[0], rv.id)
             vals = [norm(d.info.get("value")) for d in defs if d.kind == "store"]
-            ok = bool(vals) and all(f"self.{N.value}" in v for v in vals)
+            ok = bool(vals) and all(f".{N.value}" in v for v in vals)
             reads = [d for d in defs if d.kind == "store"]
             # read happens before (or together with) the reset
             ok = ok and all(d.id <= resets[0].id for d in reads)
